@@ -932,5 +932,27 @@ def rule_pr3(ctx: Ctx) -> RuleResult:
         r.ob(found, lambda: Finding("PR-3", "%s{prompt-close}" % spec.qualname, spec.module.where(spec.fn),
                                     "no path completes a child while an item is handled: windows would only be closed when the parent completes "
                                     "(results delayed until the end of the key)"))
+        if rel.endswith("time_split.py"):
+            # an item that restarts the window reference (expiry or closing item: the stored start becomes the item's own
+            # timestamp although a window was open) must close the old window and open the new one *now*, on the same path
+            s_start, s_last = time_split_state_names(ctx, site, spec)
+            for kind, cfg, paths in ctx.all_paths(spec, kinds=("Next",)):
+                for p in paths:
+                    if not _normal(p):
+                        continue
+                    tnew = [e.result for e in p.trace if e.k == "ucall" and e.name == "time_mapper"]
+                    reads = [e for e in p.trace if e.k == "store" and e.op == "get_state" and e.state[1] == s_start]
+                    first = any(e.k == "decision" and e.test[0] == "cmp" and e.test[1] in ("Is", "IsNot") and reads and reads[0].result in (e.test[2], e.test[3])
+                                and (_is_notset(e.test[2]) or _is_notset(e.test[3])) and e.outcome == (e.test[1] == "Is") for e in p.trace)
+                    restart = [e for e in p.trace if e.k == "store" and e.op == "set_state" and e.state[1] == s_start and e.extra and e.extra[0] in tnew]
+                    if first or not restart:
+                        continue
+                    evs = [m for m in mux_emissions(p, roles=("down",)) if m.event is not None and m.event.keyclass[0] == "CHILD"]
+                    kinds_ = [m.event.kind for m in evs]
+                    r.ob("Completed" in kinds_ and "Create" in kinds_, lambda: mk_finding(
+                        "PR-3", spec, kind, cfg, p,
+                        "the item restarts the window (the stored window start becomes its own timestamp) but the old window is not completed and the new "
+                        "one not created while the item is handled (%s): the result of the closed window is withheld until a later item or the end of "
+                        "the key" % summary(p), node=restart[0].node, extra="restart"))
     r.require_instances(4)
     return r
